@@ -43,7 +43,8 @@ func (p *Subscribe) NewSuback() *Suback {
 func NewSubscribePacket(fh *FixHeader, version Version, r io.Reader) (*Subscribe, error) {
 	p := &Subscribe{FixHeader: fh, Version: version}
 	//判断 标志位 flags 是否合法[MQTT-3.8.1-1]
-	if fh.Flags != FlagSubscribe {
+	// (MQTT 3.1 had a DUP flag on SUBSCRIBE)
+	if fh.Flags != FlagSubscribe && !(version == Version31 && fh.Flags == FlagSubscribe|0x08) {
 		return nil, codes.ErrMalformed
 	}
 	err := p.Unpack(r)
